@@ -80,6 +80,20 @@ def main(tier):
         heads = {b for (_, b) in cfg.back_edges()}
         inloops = [h for h in heads if cfg.dominates(h, app[0]["bb"])]
         run.ob("actions", "the Append push is inside exactly one loop (the flattening loop)", len(inloops) == 1, key="actions|Append push is inside %d loops" % len(inloops), detail=sorted(heads), nontrivial="apploop")
+    # (5) pairing of nesting actions: every Nest is pushed together with exactly one nesting marker, and a popped marker yields exactly one Parent
+    nest = [a for a in rules.aggregates(prog, "crate::Action") if a["variant"] == "Nest" and a["fn"] == "crate::tree"]
+    parent = [a for a in rules.aggregates(prog, "crate::Action") if a["variant"] == "Parent" and a["fn"] == "crate::tree"]
+    markers = [a for a in rules.aggregates(prog, "either::Either") if a["variant"] == "Right" and a["fn"] == "crate::tree"]
+    run.ob("pairing", "exactly one site builds the nesting marker Either::Right(..)", len(markers) == 1, key="pairing|nesting marker built at %d sites" % len(markers), nontrivial="marker")
+    if len(nest) == 1 and len(markers) == 1:
+        run.ob("pairing", "the marker push and the Nest action are control-equivalent (one marker per Nest, unconditionally)", cfg.control_equivalent(nest[0]["bb"], markers[0]["bb"]),
+               key="pairing|Nest and its nesting marker are not pushed together on every path", detail={"nest_bb": nest[0]["bb"], "marker_bb": markers[0]["bb"]}, nontrivial="nest-marker", sample=True)
+    if app and nest:
+        run.ob("pairing", "every Nest follows the Append of the node being entered (Append dominates Nest)", cfg.dominates(app[0]["bb"], nest[0]["bb"]),
+               key="pairing|a Nest can be emitted without the Append of its node", nontrivial="append-nest")
+    if parent and app:
+        run.ob("pairing", "the Parent action is on the marker arm, not on the node arm", not cfg.dominates(app[0]["bb"], parent[0]["bb"]) and not cfg.dominates(parent[0]["bb"], app[0]["bb"]),
+               key="pairing|Parent is emitted on the node arm", nontrivial="parent-arm")
     # (4) API named by the templates
     ids_tree = [s for _, s in idents_of(prog, f)]
     ids_act = [s for _, s in idents_of(prog, g)]
